@@ -545,6 +545,21 @@ func (c *Cluster) exec(a Action) bool {
 		}
 		n.disk.view.snapFaults = a.I
 		return true
+	case ASnapRewrite:
+		// an idempotent retry of the last snapshot write: the storage keeps what
+		// it has (ErrSnapOutOfDate); the abstract image ignores it as well
+		ps, _ := n.disk.page.Snapshot()
+		if ps.GetMetadata().GetIndex() == 0 {
+			return false
+		}
+		err := n.disk.page.ApplySnapshot(ps)
+		c.stats.probe("snapshot_write_repeated")
+		if err == nil {
+			c.stats.probe("snapshot_write_repeated_accepted")
+		}
+		c.chk.onWrite(n)
+		c.chk.refreshAfterStorageChange(n)
+		return true
 	case ACheckpoint:
 		idx := n.app.cur.Index
 		if k := len(n.app.checkpoints); k > 0 && n.app.checkpoints[k-1] >= idx {
